@@ -371,6 +371,11 @@ pub struct StepSession {
     pub seg: Vec<u16>,
     /// preferences among the four kinds of call, used cyclically
     pub script: Vec<u8>,
+    /// Shadowsocks 2022 UDP sessions only: the client side is the reference implementation with this *chosen* client
+    /// session id (sessions, also of different users, that name the same value share it), instead of the real client codec
+    /// with its random id
+    #[serde(default)]
+    pub ref_sid: Option<u8>,
 }
 
 #[derive(Clone, Debug, Serialize, Deserialize)]
@@ -396,7 +401,16 @@ struct TcpSt {
     c_fed: bool,
 }
 
+struct RefCli {
+    c22: C22,
+    keys: crate::refside::RefKeys,
+    sid: u64,
+}
+
 struct UdpSt {
+    refc: Option<RefCli>,
+    /// user the server must attribute this session's datagrams to (None: no user table)
+    want_user: Option<String>,
     cc: Box<dyn real::ClientUdpDyn>,
     up_q: std::collections::VecDeque<(usize, BytesMut)>,
     down_q: std::collections::VecDeque<(usize, BytesMut)>,
@@ -453,7 +467,13 @@ fn step_new<'a>(c: &StepCase, sh: &Shared, idx: usize, plan: &'a StepSession) ->
     let target = Addr::V4([10, 9, (idx / 200) as u8, (idx % 200) as u8 + 1], 3000 + idx as u16);
     let address = to_address(&target).unwrap();
     let kind = if plan.udp && sh.sudp.is_some() {
-        Kind::Udp(Box::new(UdpSt { cc: sh.cudp[u].as_ref().unwrap().codec(), up_q: Default::default(), down_q: Default::default(), sess: None, up_seen: 0, down_seen: 0 }))
+        let cred = gen::make_cred(c.proto, "interleaving password", c.seed, c.n_users as usize, u);
+        let want_user = if cred.users.is_empty() { None } else { Some(cred.users[u % cred.users.len()].0.clone()) };
+        let refc = match (plan.ref_sid, c.proto) {
+            (Some(v), Proto::Ss22(c22)) => crate::refside::ref_keys(&cred).ok().map(|keys| RefCli { c22, keys, sid: 0x51d0_0000_0000_0000 | v as u64 }),
+            _ => None,
+        };
+        Kind::Udp(Box::new(UdpSt { refc, want_user, cc: sh.cudp[u].as_ref().unwrap().codec(), up_q: Default::default(), down_q: Default::default(), sess: None, up_seen: 0, down_seen: 0 }))
     } else {
         Kind::Tcp(Box::new(TcpSt {
             cc: sh.cctx[u].codec(&address).map_err(|e| format!("harness: client codec: {}", e))?,
@@ -554,7 +574,21 @@ fn step_once(c: &StepCase, sh: &Shared, st: &mut StepSt) -> Result<(), String> {
                         let w = step_payload(c.seed, st.idx, false, k, plan.ups[k].min(1400));
                         st.next_up += 1;
                         let mut wire = BytesMut::new();
-                        rt::catch(|| u.cc.encode(&w, address.clone(), &mut wire)).map_err(|p| format!("client encode panicked: {}", p))?.map_err(|e| format!("datagram {}: client encode: {}", k, e))?;
+                        if let Some(r) = &u.refc {
+                            let p = crate::refimpl::ss2022::UdpClientPacket {
+                                sid: r.sid,
+                                pid: st.idx as u64 * 100_000 + k as u64 + 1,
+                                typ: 0,
+                                ts: T0,
+                                padding: vec![],
+                                addr: st.target.clone(),
+                                payload: w.clone(),
+                                xnonce: if r.c22.is_aes() { vec![] } else { gen::keystream(c.seed ^ 0xabcd, (st.idx * 1000 + k) * 24, 24) },
+                            };
+                            wire.extend_from_slice(&crate::refimpl::ss2022::encode_udp_client(r.c22, &r.keys.client_upsk, &r.keys.client_ipsks, &p));
+                        } else {
+                            rt::catch(|| u.cc.encode(&w, address.clone(), &mut wire)).map_err(|p| format!("client encode panicked: {}", p))?.map_err(|e| format!("datagram {}: client encode: {}", k, e))?;
+                        }
                         u.up_q.push_back((k, wire));
                         return Ok(());
                     }
@@ -565,6 +599,9 @@ fn step_once(c: &StepCase, sh: &Shared, st: &mut StepSt) -> Result<(), String> {
                             Ok(Some((content, addr, sess))) => {
                                 if content != want || addr != address {
                                     return Err(format!("datagram {}: server decoded {} bytes for {:?}, the session sent {} bytes for {:?}", k, content.len(), addr, want.len(), address));
+                                }
+                                if sess.user != u.want_user {
+                                    return Err(format!("datagram {}: the server attributes it to user {:?}; it was sealed under the key of {:?}", k, sess.user, u.want_user));
                                 }
                                 if let Some(prev) = &u.sess {
                                     if prev.client_sid != sess.client_sid || prev.user != sess.user {
@@ -594,6 +631,16 @@ fn step_once(c: &StepCase, sh: &Shared, st: &mut StepSt) -> Result<(), String> {
                     3 if !u.down_q.is_empty() => {
                         let (k, mut wire) = u.down_q.pop_front().unwrap();
                         let want = step_payload(c.seed, st.idx, true, k, plan.downs[k].min(1400));
+                        if let Some(r) = &u.refc {
+                            match crate::refimpl::ss2022::decode_udp_server(r.c22, &r.keys.client_upsk, &wire) {
+                                Ok(d) if d.pkt.payload == want && d.pkt.addr == st.target && d.pkt.client_sid == r.sid => {
+                                    u.down_seen += 1;
+                                    return Ok(());
+                                }
+                                Ok(d) => return Err(format!("reply {}: under the user's key the reply opens to {} bytes from {:?} for client session {:#x}; the server was given {} bytes from {:?} for {:#x}", k, d.pkt.payload.len(), d.pkt.addr, d.pkt.client_sid, want.len(), st.target, r.sid)),
+                                Err(e) => return Err(format!("reply {}: does not open under the key of the session's user ({:?}): {}", k, u.want_user, e)),
+                            }
+                        }
                         match rt::catch(|| u.cc.decode(&mut wire)).map_err(|p| format!("client decode panicked: {}", p))? {
                             Ok(Some((content, addr))) => {
                                 if content != want || addr != address {
@@ -710,7 +757,7 @@ impl SubCheck for InterleavedSteps {
     fn strategy(&self, tier: Tier) -> BoxedStrategy<StepCase> {
         let max_s = if tier == Tier::Thorough { 10usize } else { 6 };
         let sess = (
-            prop::bool::weighted(0.35),
+            prop::bool::weighted(0.45),
             0u8..6,
             gen::write_lens(5, tier == Tier::Thorough).prop_map(|mut v| {
                 if v.is_empty() {
@@ -724,8 +771,9 @@ impl SubCheck for InterleavedSteps {
             gen::write_lens(4, false).prop_map(|v| v.into_iter().map(|x| x.max(1)).collect::<Vec<u32>>()),
             proptest::collection::vec(prop_oneof![3 => Just(0u16), 2 => 1u16..40, 2 => 40u16..600, 1 => 600u16..9000], 0..5),
             proptest::collection::vec(0u8..4, 0..6),
+            prop_oneof![2 => Just(None), 3 => (0u8..2).prop_map(Some)],
         )
-            .prop_map(|(udp, user, ups, downs, seg, script)| StepSession { udp, user, ups, downs, seg, script });
+            .prop_map(|(udp, user, ups, downs, seg, script, ref_sid)| StepSession { udp, user, ups, downs, seg, script, ref_sid });
         (gen::proto_strategy(), 0u8..5, any::<u64>(), proptest::collection::vec(sess, 2..=max_s), proptest::collection::vec(any::<u8>(), 0..300))
             .prop_map(|(proto, n_users, seed, sessions, schedule)| StepCase { proto, n_users, seed, sessions, schedule })
             .boxed()
@@ -761,6 +809,17 @@ impl SubCheck for InterleavedSteps {
         }
         if n_udp > 0 && n_udp < c.sessions.len() {
             out.label("tcp-and-udp-mixed");
+        }
+        if matches!(c.proto, Proto::Ss22(_)) {
+            let mut by_sid: std::collections::BTreeMap<u8, std::collections::BTreeSet<usize>> = Default::default();
+            for s in c.sessions.iter().filter(|s| s.udp) {
+                if let Some(v) = s.ref_sid {
+                    by_sid.entry(v).or_default().insert(s.user as usize % (c.n_users as usize).max(1) % table.max(1));
+                }
+            }
+            if by_sid.values().any(|u| u.len() >= 2) {
+                out.label("udp-sessions-of-different-users-share-a-session-id");
+            }
         }
         if switches >= 3 {
             out.label("calls-interleaved");
